@@ -779,8 +779,8 @@ theorem model_assumptions_tie_helpers :
     Generated.C03.body_encryptSymmetricAESKW = ["return aeskw.Wrap(block, plaintext)"] ∧
     Generated.C03.body_decryptSymmetricAESKW = ["return aeskw.Unwrap(block, ciphertext)"] ∧
     Generated.C03.body_encryptSymmetricChaCha20Poly1305 = ["out := aead.Seal(nil, nonce, plaintext, associatedData)", "return out[0 : len(out)-chacha20poly1305.Overhead], out[len(out)-chacha20poly1305.Overhead:], nil"] ∧
-    Generated.C03.body_decryptSymmetricChaCha20Poly1305 = ["sealed := make([]byte, 0, len(ciphertext)+len(tag))", "sealed = append(sealed, ciphertext...)", "sealed = append(sealed, tag...)", "return aead.Open(nil, nonce, sealed, associatedData)"] := by
-  decide
+    Generated.C03.body_decryptSymmetricChaCha20Poly1305 = ["sealed := make([]byte, 0, len(ciphertext)+len(tag))", "sealed = append(sealed, ciphertext...)", "sealed = append(sealed, tag...)", "return aead.Open(nil, nonce, sealed, associatedData)"] :=
+  ⟨rfl, rfl, rfl, rfl, rfl, rfl, rfl, rfl, rfl, rfl, rfl, rfl⟩
 
 /-! ## 7. signatures -/
 
